@@ -64,6 +64,8 @@ func attrsNoLabel(a *d2graph.Attributes) (attrs, near string) {
 	return string(b), near
 }
 
+var emptyAttrs, _ = attrsNoLabel(&d2graph.Attributes{})
+
 // group identifies the set of parallel connections an edge belongs to.
 func (e *PEdge) group() string {
 	return fmt.Sprintf("%s\x00%s\x00%v%v", strings.ToLower(e.Src), strings.ToLower(e.Dst), e.SrcArrow, e.DstArrow)
@@ -113,6 +115,13 @@ func Project(g *d2graph.Graph) *PBoard {
 		a, _ := attrsNoLabel(&e.Attributes)
 		sh, _ := attrsNoLabel(e.SrcArrowhead)
 		dh, _ := attrsNoLabel(e.DstArrowhead)
+		// an arrowhead that carries only defaults is the same as none
+		if sh == emptyAttrs && e.SrcArrowhead.Label.Value == "" {
+			sh = "null"
+		}
+		if dh == emptyAttrs && e.DstArrowhead.Label.Value == "" {
+			dh = "null"
+		}
 		shl, dhl := "", ""
 		if e.SrcArrowhead != nil {
 			shl = e.SrcArrowhead.Label.Value
